@@ -69,7 +69,7 @@ def run(tier):
             arecs = pool.map(athlon._seg_job, jobs, chunksize=2)
             hrecs = pool.map(_hun_job, hungarian_jobs(quick, rng), chunksize=2)
         rep.count('evaluations', sum(x['n'] for x in arecs) + sum(x['n'] for x in hrecs))
-        slim = [{k: v for k, v in x.items() if k not in ('n', 'form')} for x in arecs]
+        slim = [{k: v for k, v in x.items() if k not in ('n', 'form', 'sg', 'se')} for x in arecs]
         reports, outs = common.validate_records(specdir, sc, 'Trace_Athlon', slim, tag='ath')
         for r in outs:
             rep.absorb_tlc(r, traces=1)
